@@ -20,6 +20,7 @@ package throttler
 //@   ensures [idle-off] idleTimeout <= 0 ==> result.timer == nil
 //
 //@ func (*Throttler) touch
+//@   requires [caller-holds-lock] locked("mu")
 //@   assigns timerRunning, timerDur
 //@   ensures [rearm] t.timer != nil ==> (timerRunning[t.timer] && timerDur[t.timer] == t.idleTimeout)
 //@   ensures [none] t.timer == nil ==> (timerRunning == old(timerRunning) && timerDur == old(timerDur))
